@@ -131,7 +131,7 @@ def Tracker.tryReady (t : Tracker) (r : SchedReason) : Option (Tracker × Bool) 
     | .newFilter => if p = .caughtup then some ({ t with status := .ready }, true) else some (t, false)
     | .freshData => if p = .caughtup then some ({ t with status := .ready }, true) else some (t, false)
     | .incomingAck => if p ≠ .busy then some ({ t with status := .ready }, true) else some (t, false)
-    | .ready => if p = .busy then some ({ t with status := .ready }, true) else none
+    | .ready => if p = .busy then some ({ t with status := .ready }, true) else some (t, false)
 
 structure AckLog where
   committed : List Ack := []
